@@ -27,16 +27,41 @@ func (s *Sys) ObservedFold() *Model {
 }
 
 // GenQueries draws Get queries: whole tree, schema nodes at every depth, list entries, wildcards.
-func (g *Gen) GenQueries(targets []string, n int) []ClientOp {
+func (g *Gen) GenQueries(targets []string, n int, scen ...[]ClientOp) []ClientOp {
 	var out []ClientOp
 	for _, t := range targets {
 		out = append(out, ClientOp{Kind: "get", Target: t}, ClientOp{Kind: "get", Target: t, JSON: true})
 	}
+	// leaves the scenario itself writes (wave 6): a query built from one of them is about something that exists, and a
+	// wildcard in it has siblings and deeper namesakes to tell apart
+	written := map[string][]Path{}
+	if len(scen) > 0 {
+		for _, op := range scen[0] {
+			for _, t := range targets {
+				for _, o := range op.Targets[t] {
+					if !o.Del {
+						written[t] = append(written[t], o.P)
+					}
+				}
+			}
+		}
+	}
 	for i := 0; i < n; i++ {
 		t := targets[g.pick(len(targets))]
 		p, _ := g.RandLeafPath(true)
+		fromScenario := false
+		if w := written[t]; len(w) > 0 && g.chance(1, 2) {
+			p = w[g.pick(len(w))]
+			fromScenario = true
+		}
 		q := append(Path{}, p[:1+g.pick(len(p))]...)
-		switch g.pick(6) {
+		kind := g.pick(6)
+		if fromScenario && g.chance(1, 2) {
+			// the whole leaf path with one container element replaced by `*`
+			q = append(Path{}, p...)
+			kind = 1
+		}
+		switch kind {
 		case 0:
 			// wildcard key values
 			for j := range q {
@@ -102,7 +127,7 @@ func init() {
 				p.Scenario = g.Scenario(ScenOpts{MinTx: 2, MaxTx: maxTx, MaxOps: 4, PoisonPct: 5, DelPct: 40, RollbackPct: 12, BadRollbackPct: 20,
 					AsyncPct: 30, MultiPct: 30, PipelinePct: 40}, p.Knobs.Targets)
 			}
-			p.Probes = g.GenQueries(p.Knobs.Targets, 6)
+			p.Probes = g.GenQueries(p.Knobs.Targets, 6, p.Scenario)
 			p.Sched = g.RandSched()
 			// devices are irrelevant here: connect them lazily so that runs stay short
 			p.Knobs.ConnLate = map[string]bool{}
